@@ -164,6 +164,7 @@ def check(ctx):
         want = A2.entry(rp, f"self.predictors_[self.best_idx_].{m}(X)")
         ctx.ob("R09.3", rp.func, None, rp.ret is want, f"{m} delegates to predictors_[best_idx_].{m}(X)", construct=f"{m} delegation")
     _generator(ctx)
+    basis(ctx)
 
 
 def _generator(ctx):
@@ -209,3 +210,52 @@ def _generator(ctx):
     ok = contains(vals, lambda s: s is free)
     ctx.ob("R09.4", ra.func, lev.node, ok, "a free coordinate ranges over [-max_val (if negatives are allowed) or 0, max_val]",
            construct="coordinate range")
+
+
+def basis(ctx):
+    ctx.rule("R09.6", "the grid bases handed to the generator have one unit entry per column: UtilityParity writes the constant "
+                      "1 at (('+', e, g), i) of pos_basis and (('-', e, g), i) of neg_basis with the same column counter, "
+                      "advanced once per (event, non-final group); ConditionalLossMoment writes 1 at (group, i) - so grid "
+                      "vectors are non-negative combinations whose L1 norm is the L1 norm of the coefficients")
+    from .common import M_BGL, M_UP
+    A = Analysis(ctx)
+    cls = M_UP + ":UtilityParity"
+    r = A.run(cls + ".load_data", cls_ctx=cls)
+    fq = r.func
+    st = [e for e in r.events if e.kind == "store" and e.data.get("tkind") == "sub" and e.func == fq and len(e.loops) == 2
+          and isinstance(e.data.get("base_node"), ast.Attribute) and e.data["base_node"].attr == "loc"]
+    names = {}
+    for e in st:
+        b = e.data["base_node"].value
+        if isinstance(b, ast.Attribute):
+            names.setdefault(b.attr, []).append(e)
+    ok = set(names) == {"pos_basis", "neg_basis"} and all(len(v) == 1 for v in names.values())
+    if ok:
+        loops = {x.data.get("lid"): x for x in r.events if x.kind == "loop"}
+        pe, ne = names["pos_basis"][0], names["neg_basis"][0]
+        lo, li = loops[pe.loops[0]], loops[pe.loops[1]]
+        ev_, g_ = lo.data["elem"], li.data["elem"]
+        kp, kn = pe.data["key"], ne.data["key"]
+        ok = pe.data["value"] is const(1) and ne.data["value"] is const(1) and kp.op == "tuple" and kn.op == "tuple" \
+            and kp.args[0][0] is mk("tuple", (const("+"), ev_, g_)) and kn.args[0][0] is mk("tuple", (const("-"), ev_, g_)) \
+            and kp.args[0][1] is kn.args[0][1]
+        counter = kp.args[0][1]
+        incs = [e for e in r.events if e.kind == "store" and e.data.get("tkind") == "name" and e.loops == pe.loops and e.func == fq
+                and counter.op == "loopvar" and e.data["name"] == counter.args[0]]
+        ok = ok and len(incs) == 1 and A.C._as_rat(A.C.canon(incs[0].data["value"])).equals(A.C._as_rat(A.C.canon(counter)) + A.C._as_rat(const(1))) \
+            and len(incs[0].pc) == len([x for x in incs[0].pc if x.op == "inloop"])
+        # groups: all but the last; events: the non-null events
+        ok = ok and A.eq(li.data["iter"], A.at(li, "self.tags[_GROUP_ID].unique()[:-1]")) and A.eq(lo.data["iter"], A.at(lo, "self.tags[_EVENT].dropna().unique()"))
+    ctx.ob("R09.6", fq, st[0].node if st else None, ok, "each basis column gets exactly one unit entry per sign, for the same "
+           "(event, group) and column index; the counter advances once per pair" if ok else
+           "the grid bases are not filled with one unit entry per (event, group, sign) and column", construct="UtilityParity bases")
+    cls2 = M_BGL + ":ConditionalLossMoment"
+    r2 = A.run(cls2 + ".load_data", cls_ctx=cls2)
+    st2 = [e for e in r2.events if e.kind == "store" and e.data.get("tkind") == "sub" and e.func == r2.func and e.loops
+           and isinstance(e.data.get("base_node"), ast.Attribute) and e.data["base_node"].attr == "loc"]
+    ok = len(st2) == 1 and st2[0].data["value"] is const(1)
+    if ok:
+        lev = [x for x in r2.events if x.kind == "loop" and x.data.get("lid") == st2[0].loops[-1]][0]
+        k = st2[0].data["key"]
+        ok = k.op == "tuple" and k.args[0][0] is lev.data["elem"] and A.eq(lev.data["iter"], A.at(lev, "self.tags[_GROUP_ID].unique()"))
+    ctx.ob("R09.6", r2.func, st2[0].node if st2 else None, ok, "one unit entry (group, i) per group column", construct="ConditionalLossMoment basis")
